@@ -1,0 +1,66 @@
+//go:build verif
+
+// Contracts for package result, read by /verif/govc (comment lines starting with //@).
+
+package result
+
+import "net"
+
+// specPrivate: the address lies in 10/8, 172.16/12, 192.168/16 (also written as an IPv4-mapped IPv6 address) or fc00::/7.
+// This is the statement's list of ranges, written out independently of net.IP.IsPrivate.
+func specPrivate(ip net.IP) bool {
+	if len(ip) == 4 {
+		return specPrivate4(ip[0], ip[1])
+	}
+	if len(ip) == 16 {
+		if specMapped(ip) {
+			return specPrivate4(ip[12], ip[13])
+		}
+		return ip[0]&0xfe == 0xfc
+	}
+	return false
+}
+
+func specPrivate4(a, b byte) bool {
+	return a == 10 || (a == 172 && b >= 16 && b <= 31) || (a == 192 && b == 168)
+}
+
+func specMapped(ip net.IP) bool {
+	return ip[0] == 0 && ip[1] == 0 && ip[2] == 0 && ip[3] == 0 && ip[4] == 0 && ip[5] == 0 && ip[6] == 0 && ip[7] == 0 &&
+		ip[8] == 0 && ip[9] == 0 && ip[10] == 0xff && ip[11] == 0xff
+}
+
+// specHasAddr: the hop carries an address.
+func specHasAddr(h *TracerouteHop) bool { return len(h.IPAddress) != 0 }
+
+//@ func (*TracerouteRun).GetDestinationHop
+//@ safety C04
+//@ requires[pre.hops]     tr != nil && forall(i, 0, len(tr.Hops), tr.Hops[i] != nil)
+//@ ensures[C04.desthop.none]  (ret0 == nil) == forall(i, 0, len(tr.Hops), !tr.Hops[i].IsDest)
+//@ ensures[C04.desthop.first] ret0 != nil ==> exists(i, 0, len(tr.Hops), tr.Hops[i] == ret0 && ret0.IsDest && forall(j, 0, i, !tr.Hops[j].IsDest))
+//@ modifies nothing
+//@ loop 1 invariant[scan]  0 <= range_i && range_i <= len(tr.Hops) && forall(j, 0, range_i, !tr.Hops[j].IsDest)
+
+//@ func (*Results).RemovePrivateHops
+//@ safety C17
+//@ requires[pre.wf]       r != nil && forall(i, 0, len(r.Traceroute.Runs), forall(j, 0, len(r.Traceroute.Runs[i].Hops), r.Traceroute.Runs[i].Hops[j] != nil && allocated(r.Traceroute.Runs[i].Hops[j])))
+//@ requires[pre.sep]      forall(i, 0, len(r.Traceroute.Runs), forall(k, 0, len(r.Traceroute.Runs), i != k && len(r.Traceroute.Runs[i].Hops) > 0 && len(r.Traceroute.Runs[k].Hops) > 0 ==> r.Traceroute.Runs[i].Hops != r.Traceroute.Runs[k].Hops))
+//@ ensures[C17.runs]      len(r.Traceroute.Runs) == old(len(r.Traceroute.Runs))
+//@ ensures[C17.len]       forall(i, 0, len(r.Traceroute.Runs), len(r.Traceroute.Runs[i].Hops) == old(len(r.Traceroute.Runs[i].Hops)))
+//@ ensures[C17.redact]    forall(i, 0, len(r.Traceroute.Runs), forall(j, 0, len(r.Traceroute.Runs[i].Hops), old(specPrivate(r.Traceroute.Runs[i].Hops[j].IPAddress)) ==> specRedacted(r.Traceroute.Runs[i].Hops[j], old(r.Traceroute.Runs[i].Hops[j].TTL))))
+//@ ensures[C17.keep]      forall(i, 0, len(r.Traceroute.Runs), forall(j, 0, len(r.Traceroute.Runs[i].Hops), !old(specPrivate(r.Traceroute.Runs[i].Hops[j].IPAddress)) ==> r.Traceroute.Runs[i].Hops[j] == old(r.Traceroute.Runs[i].Hops[j])))
+//@ ensures[C17.noprivate] forall(i, 0, len(r.Traceroute.Runs), forall(j, 0, len(r.Traceroute.Runs[i].Hops), !specPrivate(r.Traceroute.Runs[i].Hops[j].IPAddress)))
+//@ modifies elemtype(*TracerouteHop)
+//@ loop 1 invariant[o.done]  forall(a, 0, i, forall(b, 0, len(r.Traceroute.Runs[a].Hops), ite(old(specPrivate(r.Traceroute.Runs[a].Hops[b].IPAddress)), specRedacted(r.Traceroute.Runs[a].Hops[b], old(r.Traceroute.Runs[a].Hops[b].TTL)), r.Traceroute.Runs[a].Hops[b] == old(r.Traceroute.Runs[a].Hops[b]))))
+//@ loop 1 invariant[o.todo]  forall(a, i, len(r.Traceroute.Runs), forall(b, 0, len(r.Traceroute.Runs[a].Hops), r.Traceroute.Runs[a].Hops[b] == old(r.Traceroute.Runs[a].Hops[b])))
+//@ loop 2 invariant[i.idx]   0 <= i && i < len(r.Traceroute.Runs) && run.Hops == r.Traceroute.Runs[i].Hops
+//@ loop 2 invariant[i.done]  forall(a, 0, i, forall(b, 0, len(r.Traceroute.Runs[a].Hops), ite(old(specPrivate(r.Traceroute.Runs[a].Hops[b].IPAddress)), specRedacted(r.Traceroute.Runs[a].Hops[b], old(r.Traceroute.Runs[a].Hops[b].TTL)), r.Traceroute.Runs[a].Hops[b] == old(r.Traceroute.Runs[a].Hops[b]))))
+//@ loop 2 invariant[i.todo]  forall(a, i+1, len(r.Traceroute.Runs), forall(b, 0, len(r.Traceroute.Runs[a].Hops), r.Traceroute.Runs[a].Hops[b] == old(r.Traceroute.Runs[a].Hops[b])))
+//@ loop 2 invariant[i.cur1]  forall(b, 0, j, ite(old(specPrivate(r.Traceroute.Runs[i].Hops[b].IPAddress)), specRedacted(r.Traceroute.Runs[i].Hops[b], old(r.Traceroute.Runs[i].Hops[b].TTL)), r.Traceroute.Runs[i].Hops[b] == old(r.Traceroute.Runs[i].Hops[b])))
+//@ loop 2 invariant[i.cur2]  forall(b, j, len(r.Traceroute.Runs[i].Hops), r.Traceroute.Runs[i].Hops[b] == old(r.Traceroute.Runs[i].Hops[b]))
+
+// specRedacted: a placeholder entry that keeps only the TTL.
+func specRedacted(h *TracerouteHop, ttl int) bool {
+	return h != nil && h.TTL == ttl && len(h.IPAddress) == 0 && h.IPAddress == nil && h.RTT == 0 && !h.Reachable &&
+		h.ReverseDns == nil && !h.IsDest && h.Port == 0 && h.ICMPType == 0 && h.ICMPCode == 0
+}
